@@ -259,6 +259,9 @@ func (tp *TableParser) parseRow(row tableRowXML) ParsedTableRow {
 	return parsed
 }
 
+// maxSpannedRows bounds table:number-rows-spanned (the row limit of current ODF applications).
+const maxSpannedRows = 1048576
+
 // parseCell parses a table cell.
 func (tp *TableParser) parseCell(cell tableCellXML) ParsedTableCell {
 	parsed := ParsedTableCell{
@@ -270,6 +273,10 @@ func (tp *TableParser) parseCell(cell tableCellXML) ParsedTableCell {
 	// Parse column span
 	if cell.NumberColumnsSpanned != "" {
 		if span, err := strconv.Atoi(cell.NumberColumnsSpanned); err == nil && span > 0 {
+			// free text in the file; column counts are summed, looped over and size slices
+			if span > maxRepeatedColumns {
+				span = maxRepeatedColumns
+			}
 			parsed.ColSpan = span
 		}
 	}
@@ -277,6 +284,9 @@ func (tp *TableParser) parseCell(cell tableCellXML) ParsedTableCell {
 	// Parse row span
 	if cell.NumberRowsSpanned != "" {
 		if span, err := strconv.Atoi(cell.NumberRowsSpanned); err == nil && span > 0 {
+			if span > maxSpannedRows {
+				span = maxSpannedRows
+			}
 			parsed.RowSpan = span
 		}
 	}
